@@ -12,6 +12,7 @@ import itertools
 import numpy as np
 
 import fsic
+from fsic.extensions import AliasMixin, TracerMixin
 
 from .. import refsolve, scripted, tlc
 from ..core.runner import Acc, guard, CaseTimeout, robust
@@ -87,9 +88,27 @@ def variants_for(hist, tier):
             yield x
 
 
+class TracerScripted(TracerMixin, scripted.ScriptedBase, fsic.BaseModel):
+    pass
+
+
+class AliasScripted(AliasMixin, scripted.ScriptedBase, fsic.BaseModel):
+    ALIASES = {'alpha': 'A', 'first': 'alpha'}
+
+
+class AliasTracerScripted(AliasMixin, TracerMixin, scripted.ScriptedBase, fsic.BaseModel):
+    ALIASES = {'alpha': 'A'}
+
+
+# the same protocol holds for a model class that stacks the library's own mixins (tracing off, aliases unused)
+STACKED = {'tracer': TracerScripted, 'alias': AliasScripted, 'alias+tracer': AliasTracerScripted}
+
+
 def run_trace(case, cls=scripted.Scripted, extra_kwargs=None):
     """Execute one concretised trace on the real solve_t; return (expected, observed) dicts."""
     opts, hist, var = case['opts'], case['hist'], case['variants']
+    if case.get('stacked'):
+        cls = STACKED[case['stacked']]
     exp = refsolve.ref_trace(opts, hist + ['moved'] * 8)
     span = list(range(3))
     t = -2 if case.get('tneg') else 1
@@ -191,7 +210,7 @@ def run_traces(block, tier, acc, cls=scripted.Scripted, extra_kwargs=None, post=
                         post(case, m, acc)
             if first:
                 # the other entry points forward every option unchanged; a failing hook may raise any exception type
-                extras = [dict(entry='solve_period'), dict(entry='solve')]
+                extras = [dict(entry='solve_period'), dict(entry='solve')] + [dict(stacked=k) for k in STACKED] + [dict(stacked='tracer', entry='solve')]
                 if opts['preHook'] == 'exc' or opts['postHook'] == 'exc':
                     extras += [dict(hook_exc='SolutionError'), dict(hook_exc='NonConvergenceError'), dict(hook_exc='KeyError')]
                 for extra in extras:
@@ -210,7 +229,7 @@ def run_traces(block, tier, acc, cls=scripted.Scripted, extra_kwargs=None, post=
                     if extra.get('entry') == 'solve' and want['result'] == 'ValueError':
                         want = dict(want, untouched=True)
                     if want != obs:
-                        acc.violation(trace_key(case, want, obs) + ':' + (extra.get('entry') or 'hook-' + extra['hook_exc']), case, want, obs,
+                        acc.violation(trace_key(case, want, obs) + ':' + (extra.get('stacked') or extra.get('entry') or 'hook-' + extra['hook_exc']), case, want, obs,
                                       'solve_t disagrees with the documented state machine')
             first = False
         acc.sample({'opts': opts, 'hist': hist, 'expect': {k: s[k] for k in ('result', 'status', 'iters', 'k')}}, limit=3)
